@@ -78,12 +78,31 @@ type scanner struct {
 	pkgs    []*packages.Package
 	globals map[types.Object]*Global
 	// taint: objects (locals, params) that may alias memory reachable from a global -> which global
-	taint map[types.Object]types.Object
+	taint map[types.Object]tnt
 	// function declarations by object
 	decls   map[types.Object]*ast.FuncDecl
 	declPkg map[*ast.FuncDecl]*packages.Package
 	out     Out
 	ordCnt  map[string]int
+	// retTaint: for a module function, which global (if any) each of its results may alias
+	retTaint map[types.Object][]*tnt
+	// lib: state of OTHER packages that module code sets (assignments to their package-level
+	// variables, calls of their Set*/Register*/Seed... functions), by name
+	lib map[string]*Global
+	// units: every body of code that is scanned (function declarations, function literals in
+	// package-level variable initialisers)
+	units []*unit
+}
+
+// unit is one body of code that is scanned for taint and for sites.
+type unit struct {
+	pkg  *packages.Package
+	decl *ast.FuncDecl // a synthetic declaration for function literals of package-level initialisers
+	obj  types.Object  // the function's object (nil for literals)
+	fn   string        // display name: pkg:Func, pkg:Recv.Func, pkg:var X (literal)
+	// onlyWrites: record only write sites of globals (literals in initialisers are not part of
+	// the inventories the other properties read)
+	onlyWrites bool
 }
 
 func (s *scanner) pos(p token.Pos) (string, int) {
@@ -110,59 +129,6 @@ func (s *scanner) text(n ast.Node) string {
 	return t
 }
 
-// rootObj returns the object at the root of an addressable/value expression (x, x.f, x[i], *x, x[i:j])
-func rootObj(info *types.Info, e ast.Expr) types.Object {
-	for {
-		switch v := e.(type) {
-		case *ast.Ident:
-			return info.ObjectOf(v)
-		case *ast.SelectorExpr:
-			// package-qualified identifier?
-			if id, ok := v.X.(*ast.Ident); ok {
-				if _, isPkg := info.ObjectOf(id).(*types.PkgName); isPkg {
-					return info.ObjectOf(v.Sel)
-				}
-			}
-			e = v.X
-		case *ast.IndexExpr:
-			e = v.X
-		case *ast.SliceExpr:
-			e = v.X
-		case *ast.StarExpr:
-			e = v.X
-		case *ast.ParenExpr:
-			e = v.X
-		case *ast.UnaryExpr:
-			e = v.X
-		case *ast.TypeAssertExpr:
-			e = v.X
-		case *ast.CallExpr:
-			// append(x, ...) aliases x
-			if id, ok := v.Fun.(*ast.Ident); ok && id.Name == "append" && len(v.Args) > 0 {
-				e = v.Args[0]
-				continue
-			}
-			return nil
-		default:
-			return nil
-		}
-	}
-}
-
-func (s *scanner) globalOf(info *types.Info, e ast.Expr) types.Object {
-	o := rootObj(info, e)
-	if o == nil {
-		return nil
-	}
-	if _, ok := s.globals[o]; ok {
-		return o
-	}
-	if g, ok := s.taint[o]; ok {
-		return g
-	}
-	return nil
-}
-
 func main() {
 	root, _ := filepath.Abs(os.Args[1])
 	cfg := &packages.Config{Mode: packages.LoadAllSyntax, Dir: root, Tests: false,
@@ -175,14 +141,15 @@ func main() {
 	if packages.PrintErrors(pkgs) > 0 {
 		os.Exit(1)
 	}
-	s := &scanner{root: root, globals: map[types.Object]*Global{}, taint: map[types.Object]types.Object{},
-		decls: map[types.Object]*ast.FuncDecl{}, declPkg: map[*ast.FuncDecl]*packages.Package{}, ordCnt: map[string]int{}}
+	s := &scanner{root: root, globals: map[types.Object]*Global{}, taint: map[types.Object]tnt{},
+		decls: map[types.Object]*ast.FuncDecl{}, declPkg: map[*ast.FuncDecl]*packages.Package{}, ordCnt: map[string]int{},
+		retTaint: map[types.Object][]*tnt{}, lib: map[string]*Global{}}
 	sort.Slice(pkgs, func(i, j int) bool { return pkgs[i].PkgPath < pkgs[j].PkgPath })
 	s.pkgs = pkgs
 	if len(pkgs) > 0 {
 		s.fset = pkgs[0].Fset
 	}
-	// 1. globals and function declarations
+	// 1. globals, function declarations, function literals of package-level initialisers
 	for _, p := range pkgs {
 		for _, f := range p.Syntax {
 			for _, d := range f.Decls {
@@ -201,6 +168,21 @@ func main() {
 							s.globals[o] = &Global{Name: rel(p.PkgPath) + "." + n.Name, Type: types.TypeString(o.Type(), func(q *types.Package) string { return q.Name() }),
 								Ref: hasRef(o.Type(), map[types.Type]bool{}), Writes: []Site{}}
 						}
+						// var x = func(...) {...} / var t = T{f: func() {...}}: code that runs whenever the value is called
+						for _, val := range vs.Values {
+							name := "_"
+							if len(vs.Names) > 0 {
+								name = vs.Names[0].Name
+							}
+							ast.Inspect(val, func(n ast.Node) bool {
+								if lit, ok := n.(*ast.FuncLit); ok {
+									s.units = append(s.units, &unit{pkg: p, decl: &ast.FuncDecl{Name: ast.NewIdent(name), Type: lit.Type, Body: lit.Body},
+										fn: rel(p.PkgPath) + ":var " + name + " (func literal)", onlyWrites: true})
+									return false
+								}
+								return true
+							})
+						}
 					}
 				case *ast.FuncDecl:
 					if o := p.TypesInfo.Defs[d.Name]; o != nil {
@@ -211,96 +193,38 @@ func main() {
 			}
 		}
 	}
-	// 2. taint fixpoint: locals/params aliasing global memory
-	for changed := true; changed; {
-		changed = false
-		for _, d := range s.decls {
-			p := s.declPkg[d]
-			info := p.TypesInfo
+	{
+		var declList []*ast.FuncDecl
+		objOf := map[*ast.FuncDecl]types.Object{}
+		for o, d := range s.decls {
+			declList = append(declList, d)
+			objOf[d] = o
+		}
+		// by file name, then offset: token.Pos depends on the order in which the files were parsed
+		sort.Slice(declList, func(i, j int) bool {
+			pi, pj := s.fset.Position(declList[i].Pos()), s.fset.Position(declList[j].Pos())
+			if pi.Filename != pj.Filename {
+				return pi.Filename < pj.Filename
+			}
+			return pi.Offset < pj.Offset
+		})
+		lits := s.units
+		s.units = nil
+		for _, d := range declList {
 			if d.Body == nil {
 				continue
 			}
-			mark := func(lhs ast.Expr, g types.Object) {
-				id, ok := lhs.(*ast.Ident)
-				if !ok {
-					return
-				}
-				o := info.ObjectOf(id)
-				if o == nil || s.globals[o] != nil {
-					return
-				}
-				if !hasRef(o.Type(), map[types.Type]bool{}) {
-					return
-				}
-				if _, ok := s.taint[o]; !ok {
-					s.taint[o] = g
-					changed = true
-				}
+			p := s.declPkg[d]
+			fn := d.Name.Name
+			if d.Recv != nil && len(d.Recv.List) > 0 {
+				fn = s.text(d.Recv.List[0].Type) + "." + fn
 			}
-			ast.Inspect(d.Body, func(n ast.Node) bool {
-				switch v := n.(type) {
-				case *ast.AssignStmt:
-					if len(v.Lhs) == len(v.Rhs) {
-						for i := range v.Lhs {
-							if g := s.globalOf(info, v.Rhs[i]); g != nil {
-								mark(v.Lhs[i], g)
-							}
-						}
-					} else if len(v.Rhs) == 1 { // v, ok := m[k]  /  a, b := f()
-						if g := s.globalOf(info, v.Rhs[0]); g != nil {
-							mark(v.Lhs[0], g)
-						}
-					}
-				case *ast.RangeStmt:
-					if g := s.globalOf(info, v.X); g != nil {
-						if v.Value != nil {
-							mark(v.Value, g)
-						}
-					}
-				case *ast.CallExpr:
-					// pass taint into parameters of module functions
-					var callee types.Object
-					switch f := v.Fun.(type) {
-					case *ast.Ident:
-						callee = info.ObjectOf(f)
-					case *ast.SelectorExpr:
-						callee = info.ObjectOf(f.Sel)
-					}
-					if cd, ok := s.decls[callee]; ok && cd.Type.Params != nil {
-						var params []types.Object
-						cinfo := s.declPkg[cd].TypesInfo
-						for _, fl := range cd.Type.Params.List {
-							for _, nm := range fl.Names {
-								params = append(params, cinfo.Defs[nm])
-							}
-						}
-						for i, a := range v.Args {
-							if i >= len(params) || params[i] == nil {
-								continue
-							}
-							if g := s.globalOf(info, a); g != nil && hasRef(params[i].Type(), map[types.Type]bool{}) {
-								if _, ok := s.taint[params[i]]; !ok {
-									s.taint[params[i]] = g
-									changed = true
-								}
-							}
-						}
-						// method receiver
-						if sel, ok := v.Fun.(*ast.SelectorExpr); ok && cd.Recv != nil && len(cd.Recv.List) > 0 && len(cd.Recv.List[0].Names) > 0 {
-							ro := cinfo.Defs[cd.Recv.List[0].Names[0]]
-							if g := s.globalOf(info, sel.X); g != nil && ro != nil && hasRef(ro.Type(), map[types.Type]bool{}) {
-								if _, ok := s.taint[ro]; !ok {
-									s.taint[ro] = g
-									changed = true
-								}
-							}
-						}
-					}
-				}
-				return true
-			})
+			s.units = append(s.units, &unit{pkg: p, decl: d, obj: objOf[d], fn: rel(p.PkgPath) + ":" + fn})
 		}
+		s.units = append(s.units, lits...)
 	}
+	// 2. taint fixpoint: locals/params/results aliasing global memory (globals.go)
+	s.taintFixpoint()
 	// comma-ok type assertions (v, ok := x.(T)) cannot panic: collect them first
 	okForms := map[token.Pos]bool{}
 	for _, d := range s.decls {
@@ -326,44 +250,14 @@ func main() {
 		})
 	}
 	// 3. sites
-	var declList []*ast.FuncDecl
-	for _, d := range s.decls {
-		declList = append(declList, d)
-	}
-	sort.Slice(declList, func(i, j int) bool { return declList[i].Pos() < declList[j].Pos() })
-	for _, d := range declList {
-		if d.Body == nil {
-			continue
-		}
-		p := s.declPkg[d]
+	for _, u := range s.units {
+		d := u.decl
+		p := u.pkg
 		info := p.TypesInfo
-		fn := d.Name.Name
-		if d.Recv != nil && len(d.Recv.List) > 0 {
-			fn = s.text(d.Recv.List[0].Type) + "." + fn
-		}
-		fn = rel(p.PkgPath) + ":" + fn
-		write := func(target ast.Expr, kind string, n ast.Node) {
-			o := rootObj(info, target)
-			if o == nil {
-				return
-			}
-			direct := s.globals[o] != nil
-			g := s.globalOf(info, target)
-			if g == nil {
-				return
-			}
-			// plain assignment to a tainted LOCAL rebinding the local itself is not a write to global memory
-			if !direct {
-				if _, isIdent := target.(*ast.Ident); isIdent && kind != "append-into" {
-					return
-				}
-			}
-			if fn == rel(p.PkgPath)+":init" {
-				return
-			}
-			gl := s.globals[g]
-			gl.Writes = append(gl.Writes, s.site(fn, kind, n))
-		}
+		fn := u.fn
+		onlyWrites := u.onlyWrites
+		touch := func(e ast.Expr, kind string, n ast.Node) { s.touch(info, fn, e, kind, n) }
+		write := func(target ast.Expr, kind string, n ast.Node) { s.write(info, fn, target, kind, n) }
 		ast.Inspect(d.Body, func(n ast.Node) bool {
 			switch v := n.(type) {
 			case *ast.AssignStmt:
@@ -383,11 +277,15 @@ func main() {
 				if v.Op == token.AND {
 					write(v.X, "address-taken", v)
 				}
-				if v.Op == token.ARROW {
+				if v.Op == token.ARROW && !onlyWrites {
 					s.out.EnvReads = append(s.out.EnvReads, s.site(fn, "chan:recv", v))
 				}
 			case *ast.CallExpr:
+				builtin := false
 				if id, ok := v.Fun.(*ast.Ident); ok {
+					if _, isB := info.ObjectOf(id).(*types.Builtin); isB {
+						builtin = true
+					}
 					switch id.Name {
 					case "append":
 						if len(v.Args) > 0 {
@@ -402,9 +300,11 @@ func main() {
 							write(v.Args[0], id.Name, v)
 						}
 					case "panic":
-						s.out.Panics = append(s.out.Panics, s.site(fn, "panic", v))
+						if !onlyWrites {
+							s.out.Panics = append(s.out.Panics, s.site(fn, "panic", v))
+						}
 					case "make":
-						if len(v.Args) > 0 {
+						if len(v.Args) > 0 && !onlyWrites {
 							if t := info.TypeOf(v.Args[0]); t != nil {
 								if _, ok := t.Underlying().(*types.Chan); ok {
 									s.out.EnvReads = append(s.out.EnvReads, s.site(fn, "chan:make", v))
@@ -413,8 +313,13 @@ func main() {
 						}
 					}
 				}
+				if !builtin {
+					s.callSites(info, fn, v)
+				}
 				if sel, ok := v.Fun.(*ast.SelectorExpr); ok {
-					s.envRead(info, fn, d, sel, v)
+					if !onlyWrites {
+						s.envRead(info, fn, d, sel, v)
+					}
 					if id, ok := sel.X.(*ast.Ident); ok {
 						if pn, isPkg := info.ObjectOf(id).(*types.PkgName); isPkg {
 							pth := pn.Imported().Path()
@@ -425,6 +330,9 @@ func main() {
 					}
 				}
 			case *ast.RangeStmt:
+				if onlyWrites {
+					return true
+				}
 				if t := info.TypeOf(v.X); t != nil {
 					if _, ok := t.Underlying().(*types.Map); ok {
 						st := s.site(fn, "map-range", v.X)
@@ -435,14 +343,28 @@ func main() {
 					}
 				}
 			case *ast.GoStmt:
+				if onlyWrites {
+					return true
+				}
 				s.out.GoStmts = append(s.out.GoStmts, s.site(fn, "go", v))
 			case *ast.SelectorExpr:
-				s.envVar(info, fn, v)
+				if !onlyWrites {
+					s.envVar(info, fn, v)
+				}
 			case *ast.SendStmt:
-				s.out.EnvReads = append(s.out.EnvReads, s.site(fn, "chan:send", v))
+				// a reference into global memory leaves through a channel
+				touch(v.Value, "sent-on-channel", v)
+				if !onlyWrites {
+					s.out.EnvReads = append(s.out.EnvReads, s.site(fn, "chan:send", v))
+				}
 			case *ast.SelectStmt:
-				s.out.EnvReads = append(s.out.EnvReads, s.site(fn, "chan:select", v))
+				if !onlyWrites {
+					s.out.EnvReads = append(s.out.EnvReads, s.site(fn, "chan:select", v))
+				}
 			case *ast.TypeAssertExpr:
+				if onlyWrites {
+					return true
+				}
 				if v.Type == nil {
 					return true // type switch
 				}
@@ -451,6 +373,9 @@ func main() {
 					s.out.Panics = append(s.out.Panics, s.site(fn, "type-assert", v))
 				}
 			case *ast.IndexExpr:
+				if onlyWrites {
+					return true
+				}
 				if t := info.TypeOf(v.X); t != nil {
 					switch u := t.Underlying().(type) {
 					case *types.Slice, *types.Basic:
@@ -465,6 +390,9 @@ func main() {
 					}
 				}
 			case *ast.SliceExpr:
+				if onlyWrites {
+					return true
+				}
 				s.out.Panics = append(s.out.Panics, s.site(fn, "slice", v))
 			}
 			return true
@@ -532,6 +460,9 @@ func main() {
 	s.out.Panics = ps
 	var gl []Global
 	for _, g := range s.globals {
+		gl = append(gl, *g)
+	}
+	for _, g := range s.lib {
 		gl = append(gl, *g)
 	}
 	sort.Slice(gl, func(i, j int) bool { return gl[i].Name < gl[j].Name })
